@@ -307,7 +307,10 @@ class ModelCacheMixin:
     def batch_eval(self, asts, n, extra_constraints=(), exact=None):
         results = self._get_batch_solutions(asts, n=n, extra_constraints=extra_constraints)
 
-        if len(results) == n or (len(asts) == 1 and asts[0].hash() in self._eval_exhausted):
+        # the cached models only cover every solution of an exhausted AST when no extra constraints narrow them down
+        if len(results) == n or (
+            len(extra_constraints) == 0 and len(asts) == 1 and asts[0].hash() in self._eval_exhausted
+        ):
             return results
 
         remaining = n - len(results)
@@ -343,7 +346,10 @@ class ModelCacheMixin:
 
     def min(self, e, extra_constraints=(), signed=False, exact=None):
         cached = []
-        if e.hash() in self._eval_exhausted or e.hash() in self._min_exhausted:
+        # The cached models are only known to contain the optimum for the signedness it was computed for, and only
+        # when no extra constraints restrict the solutions.
+        min_exhausted = self._min_signed_exhausted if signed else self._min_exhausted
+        if len(extra_constraints) == 0 and (e.hash() in self._eval_exhausted or e.hash() in min_exhausted):
             # we set allow_unconstrained to False because we expect all returned values for e are returned by Z3,
             # instead of some arbitrarily assigned concrete values.
             cached = self._get_solutions(e, extra_constraints=extra_constraints, allow_unconstrained=False)
@@ -351,7 +357,7 @@ class ModelCacheMixin:
         if len(cached) > 0:
 
             def signed_key(v):
-                return v if v >= 0 else v + 2 ** len(e)
+                return v if v < 2 ** (len(e) - 1) else v - 2 ** len(e)
 
             return min(cached, key=signed_key if signed else lambda v: v)
 
@@ -362,7 +368,8 @@ class ModelCacheMixin:
 
     def max(self, e, extra_constraints=(), signed=False, exact=None):
         cached = []
-        if e.hash() in self._eval_exhausted or e.hash() in self._max_exhausted:
+        max_exhausted = self._max_signed_exhausted if signed else self._max_exhausted
+        if len(extra_constraints) == 0 and (e.hash() in self._eval_exhausted or e.hash() in max_exhausted):
             cached = self._get_solutions(e, extra_constraints=extra_constraints, allow_unconstrained=False)
 
         if len(cached) > 0:
